@@ -125,8 +125,34 @@ pub fn template_dec_case(idx: usize, g: &mut crate::gen::G) -> Value {
     dec_record(idx, "dec", json!(fl.nodes), tids, &env, &ets, &blob)
 }
 /// C03: what the real encoders produce, with the declared types and the abstract values
+/// a message whose type table is large (more than 64, 128 entries: multi-byte type indices)
+fn wide_msg(g: &mut crate::gen::G) -> RandMsg {
+    use candid::types::{Field, Label, TypeInner};
+    use candid::types::value::IDLField;
+    use std::rc::Rc;
+    let n = [40usize, 66, 70, 130][g.rng_range(0, 4)];
+    let mut fs = vec![]; let mut vs = vec![];
+    for i in 0..n {
+        // pairwise distinct composite types: record { i : nat8 } wrapped in 0-2 options / a vector
+        let inner: Type = TypeInner::Record(vec![Field { id: Rc::new(Label::Id(i as u32)), ty: TypeInner::Nat8.into() }]).into();
+        let iv = IDLValue::Record(vec![IDLField { id: Label::Id(i as u32), val: IDLValue::Nat8(i as u8) }]);
+        let (t, v): (Type, IDLValue) = match i % 4 {
+            0 => (inner, iv),
+            1 => (TypeInner::Opt(inner).into(), IDLValue::Opt(Box::new(iv))),
+            2 => (TypeInner::Vec(inner).into(), IDLValue::Vec(vec![iv.clone(), iv])),
+            _ => (TypeInner::Opt(TypeInner::Opt(inner).into()).into(), if g.rng_range(0, 2) == 0 { IDLValue::None } else { IDLValue::Opt(Box::new(IDLValue::Opt(Box::new(iv)))) }),
+        };
+        fs.push(Field { id: Rc::new(Label::Id(1000 + i as u32)), ty: t });
+        vs.push(IDLField { id: Label::Id(1000 + i as u32), val: v });
+    }
+    let env = TypeEnv::new();
+    let t: Type = TypeInner::Record(fs).into();
+    let args = IDLArgs { args: vec![IDLValue::Record(vs)] };
+    let bytes = args.to_bytes_with_types(&env, &[t.clone()]).unwrap_or_default();
+    RandMsg { env, wts: vec![t], args, bytes }
+}
 pub fn enc_case(idx: usize, g: &mut crate::gen::G) -> Value {
-    let m = rand_msg(g, 0);
+    let m = if g.rng_range(0, 150) == 0 { wide_msg(g) } else { rand_msg(g, 0) };
     let mut fl = Flat::new(&m.env);
     let wids: Vec<String> = m.wts.iter().map(|t| fl.ty(t)).collect();
     let ann = m.args.clone().annotate_types(true, &m.env, &m.wts);
